@@ -227,6 +227,21 @@ the syscall programs `atomicWrite` / `pendingAbort` transcribe. -/
 theorem C14_wrapper_delegates : Gen.wrapperDelegates = [true, true, true] := by
   decide
 
+/-- Completeness of CONTENT: every size limit on a path that feeds a save of one
+of the three durable files is an erroring one (golibs `ioutil.LimitReader`,
+`http.MaxBytesReader`): hitting it makes the read fail, the update is abandoned
+through `Cleanup` and the old version stays (`C14_abandoned_update_keeps_old`).
+A silent limiter (`io.LimitReader`, `io.LimitedReader`, `io.CopyN`) would end
+the input with a clean EOF and a cut-off file would be installed atomically. -/
+theorem C14_limits_on_save_paths_error :
+    ∀ l ∈ Gen.limiters, l.durable = true → l.kind = 2 := by
+  decide +kernel
+
+/-- The extractor does see limiters, among them one on an atomic save path (the
+rule-list cache of `filtering/rulelist`), and it is an erroring one. -/
+theorem C14_limiters_seen : ∃ l ∈ Gen.limiters, l.atomic = true ∧ l.kind = 2 := by
+  decide +kernel
+
 /-- The table is not vacuous: each of the three kinds has a writer site in it
 (config 2, leases 4, filter 8). -/
 theorem C14_three_kinds_present :
